@@ -40,7 +40,9 @@ var verifIOSMenuB = []string{
 // packet classes: source 10.0.0.1/2/3/other x {tcp/80, other protocol}
 const verifNClasses = 8
 
-func verifClassSrc(c int) string  { return []string{"10.0.0.1", "10.0.0.2", "10.0.0.3", "10.9.9.9"}[c%4] }
+func verifClassSrc(c int) string {
+	return []string{"10.0.0.1", "10.0.0.2", "10.0.0.3", "10.9.9.9"}[c%4]
+}
 func verifClassTCP80(c int) bool { return c >= 4 }
 
 // verifLineInfo computes action code and match set of a concrete ACL line.
@@ -89,12 +91,12 @@ func verifLineInfo(line string) (int, []bool) {
 }
 
 type verifMenu struct {
-	orig    []string // text as printed by the device / Netspoc
-	parsed  []string // cmd.parsed after the real parser's normalisation
-	act     []int
-	match   [][]bool // [class][menu index]
-	typ     map[string]*cmdType
-	nolog   []string // orig with log attribute removed (device's duplicate rule)
+	orig   []string // text as printed by the device / Netspoc
+	parsed []string // cmd.parsed after the real parser's normalisation
+	act    []int
+	match  [][]bool // [class][menu index]
+	typ    map[string]*cmdType
+	nolog  []string // orig with log attribute removed (device's duplicate rule)
 }
 
 var verifStripLog = regexp.MustCompile(` log(-input)?`)
